@@ -66,10 +66,18 @@
   partial:
   * the ORDER in which wh.py appends new binary-side labels is
     `list(set(new) - set(old))`, i.e. Python's set order; the model (`whModel`)
-    appends them in counting order.  The label-level conclusions
-    (`LW.get` / `optGet` at every pair of labels) do not mention that order, but
-    the statements about positions (`r.cues = w.cues ++ …`) are about the
-    model's order; "old labels keep their position" holds for both.
+    appends them in counting order.  `whModelWith nl` (PyndlModel/WHModel.lean)
+    takes the appended block as a parameter, and
+    `wh_appended_label_order_irrelevant` / `wh_chain_two_labels` show for EVERY
+    permutation of the new names: old labels keep their position, the appended
+    block is that permutation, and the weights read through the labels are the
+    same.  Still about the model's order only: the positional conclusions
+    `r.cues = w.cues ++ …filter…` of `wh_b2r_continue` / `wh_r2b_continue` (use
+    the `_get` forms for the code), and chains of MORE than two calls
+    (`whChainRun` appends in counting order at every call; the label-level
+    conclusion of `wh_chain_any_length` is order-free, the per-call order
+    irrelevance is proved for one continued call, not re-threaded through
+    `whChainRun`).
   * given weights whose binary-side labels contain a duplicate: wh.py's
     `OrderedDict` id map takes the LAST position of a repeated label, the model
     (`idxOf`) the FIRST.  The continuation theorems carry `hwn` (no duplicate);
@@ -95,8 +103,10 @@
     at every pair of keys (also after `make_data_array=True`);
   * `wh_numpy_continue`, `wh_numpy_eq_openmp_continue`, `dict_wh_continue` —
     continuation from given weights (DataArray re-aligned by label / WeightDict)
-    is the specification continued (`whR2RSpecFrom`); `wh_numpy_two_calls`,
-    `dict_wh_two_calls` — two calls = one pass (append law);
+    is the specification continued (`whR2RSpecFrom`); `wh_numpy_two_calls` —
+    two calls = one pass (append law); (`dict_wh_two_calls` and
+    `single_event_checks` are definitional: a fold's append law / the model's
+    `match` restated);
   * `wh_numpy_table_check`, `wh_numpy_event_error`, `dict_wh_raises` — the error
     branches (numpy: `ValueError` from the table check first; dict_wh: `KeyError`
     at the event; `ValueError` / `AssertionError` of the first offending event).
@@ -594,31 +604,107 @@ theorem wh_chain_two (fl : WhFlavour) (eta β₁ β₂ lam : R) (cueTab outTab :
       ∀ a b, w₂.get a b = whSpecGet fl eta β₁ β₂ lam cueTab outTab (es₁' ++ es₂') a b :=
   whChain_two fl eta β₁ β₂ lam cueTab outTab p₁ p₂ chunk₁ chunk₂ hc₁ hc₂ es₁ es₂ es₁' es₂' htab₁ htab₂ hp₁ hp₂
 
-/-- the binary side grows by appending: in a two-call chain the old cues
-    (binary → real) / outcomes (real → binary) keep their positions and the new
-    names of the second part follow -/
-theorem wh_chain_two_labels (eta β₁ β₂ lam : R) (ct ot : VecTable R) (p₁ p₂ : DupPolicy) (chunk₁ chunk₂ : Nat)
+/-- **the ORDER in which new binary-side labels are appended is irrelevant**
+    (one continued call).  wh.py appends `list(set(new) - set(old))` (wh.py 433,
+    631) — Python's set order, e.g. `['q','y','x']` where the model's counting
+    order is `[q,x,y]`.  `whModelWith nl` is `whModel` with the appended block
+    `nl old new` as a parameter (`whModel = whModelWith countingNew`).  For EVERY
+    `nl` whose block is a permutation of the new names of the events (`hnl`;
+    what `list(set(new) - set(old))` is, whatever the hashes): under the
+    hypotheses of `wh_b2r_continue` / `wh_r2b_continue` the call succeeds, the
+    old labels keep their positions, the appended block is that permutation, and
+    the result read through its labels equals the model's at EVERY pair of
+    labels.  So the label-level theorems (`wh_*_continue_get`, the chain
+    theorems) hold for the code's order as well. -/
+theorem wh_appended_label_order_irrelevant (nl : List String → List String → List String)
+    (p : DupPolicy) (eta β₁ β₂ lam : R) (chunk : Nat) (hc : 1 ≤ chunk) (w : LW R)
+    (es es' : List (Event String String)) (hp : applyPolicyAll p es = some es') :
+    (∀ ot : VecTable R, (∀ e ∈ es, ∀ o ∈ e.outcomes, o ∈ ot.names) → w.outcomes = ot.dims →
+      (nl w.cues (countNames es).1).Perm (countingNew w.cues (countNames es).1) →
+      ∃ r r', whModel .b2r p eta β₁ β₂ lam none (some ot) chunk (some w) es = .ok r ∧
+        whModelWith nl .b2r p eta β₁ β₂ lam none (some ot) chunk (some w) es = .ok r' ∧
+        r'.outcomes = r.outcomes ∧
+        r.cues = w.cues ++ countingNew w.cues (countNames es).1 ∧
+        r'.cues = w.cues ++ nl w.cues (countNames es).1 ∧
+        ∀ a b, r'.get a b = r.get a b) ∧
+    (∀ ct : VecTable R, (∀ e ∈ es, ∀ c ∈ e.cues, c ∈ ct.names) → w.cues.length = ct.dims.length →
+      ¬ alignRaises ct.dims w.cues →
+      (nl w.outcomes (countNames es).2).Perm (countingNew w.outcomes (countNames es).2) →
+      ∃ r r', whModel .r2b p eta β₁ β₂ lam (some ct) none chunk (some w) es = .ok r ∧
+        whModelWith nl .r2b p eta β₁ β₂ lam (some ct) none chunk (some w) es = .ok r' ∧
+        r'.cues = r.cues ∧
+        r.outcomes = w.outcomes ++ countingNew w.outcomes (countNames es).2 ∧
+        r'.outcomes = w.outcomes ++ nl w.outcomes (countNames es).2 ∧
+        ∀ a b, r'.get a b = r.get a b) :=
+  ⟨fun ot htabo hlab hnl => whModelWith_b2r_get_eq nl p eta β₁ β₂ lam ot chunk hc w es es' htabo hp hlab
+      (newCovers_of_perm nl _ _ hnl),
+   fun ct htab hlen hal hnl => whModelWith_r2b_get_eq nl p eta β₁ β₂ lam ct chunk hc w es es' htab hp hlen hal
+      (newCovers_of_perm nl _ _ hnl)⟩
+
+/-- (definitional) the model is the instance "counting order" -/
+theorem wh_model_is_counting_order (fl : WhFlavour) (p : DupPolicy) (eta β₁ β₂ lam : R)
+    (cueTab outTab : Option (VecTable R)) (chunk : Nat) (W0 : Option (LW R))
+    (es : List (Event String String)) :
+    whModel fl p eta β₁ β₂ lam cueTab outTab chunk W0 es
+      = whModelWith countingNew fl p eta β₁ β₂ lam cueTab outTab chunk W0 es :=
+  whModel_eq_with fl p eta β₁ β₂ lam cueTab outTab chunk W0 es
+
+/-- **the binary side grows by appending, in ANY order** (two-call chain).  The
+    first call from `weights=None` labels its binary side in counting order; the
+    second call appends the new names of the second part in the order `nl` —
+    any permutation of them (`hnl`; the code: `list(set(new) - set(old))`).
+    Conclusion, for both flavours with a binary side: both calls succeed; the
+    old cues (binary → real) / outcomes (real → binary) keep their positions;
+    the appended block is a permutation (`List.Perm`) of the new names of the
+    second part; and the second result is, at every pair of labels, the
+    specification on the concatenation of the policy-processed parts.
+
+    REPLACES the earlier `wh_chain_two_labels`, which concluded the ORDERED list
+    `w₂.cues = w₁.cues ++ (countNames es₂).1.filter …` for `whModel`: true of the
+    model, but about the model's order only (the second review: code
+    `['q','y','x']`, model `[q,x,y]`).  That statement is the instance
+    `nl = countingNew` of this one. -/
+theorem wh_chain_two_labels (nl : List String → List String → List String)
+    (eta β₁ β₂ lam : R) (ct ot : VecTable R) (p₁ p₂ : DupPolicy) (chunk₁ chunk₂ : Nat)
     (hc₁ : 1 ≤ chunk₁) (hc₂ : 1 ≤ chunk₂) (es₁ es₂ es₁' es₂' : List (Event String String))
     (hp₁ : applyPolicyAll p₁ es₁ = some es₁') (hp₂ : applyPolicyAll p₂ es₂ = some es₂') :
     ((∀ e ∈ es₁, ∀ o ∈ e.outcomes, o ∈ ot.names) → (∀ e ∈ es₂, ∀ o ∈ e.outcomes, o ∈ ot.names) →
+      (∀ old, (nl old (countNames es₂).1).Perm (countingNew old (countNames es₂).1)) →
       ∃ w₁ w₂, whModel .b2r p₁ eta β₁ β₂ lam none (some ot) chunk₁ none es₁ = .ok w₁ ∧
-        whModel .b2r p₂ eta β₁ β₂ lam none (some ot) chunk₂ (some w₁) es₂ = .ok w₂ ∧
+        whModelWith nl .b2r p₂ eta β₁ β₂ lam none (some ot) chunk₂ (some w₁) es₂ = .ok w₂ ∧
         w₁.cues = (countNames es₁).1 ∧
-        w₂.cues = w₁.cues ++ (countNames es₂).1.filter (fun c => !w₁.cues.contains c)) ∧
+        (∃ blk, w₂.cues = w₁.cues ++ blk ∧
+          blk.Perm ((countNames es₂).1.filter (fun c => !w₁.cues.contains c))) ∧
+        ∀ dl c, w₂.get dl c = whSpecGet .b2r eta β₁ β₂ lam none (some ot) (es₁' ++ es₂') dl c) ∧
     ((∀ e ∈ es₁, ∀ c ∈ e.cues, c ∈ ct.names) → (∀ e ∈ es₂, ∀ c ∈ e.cues, c ∈ ct.names) →
+      (∀ old, (nl old (countNames es₂).2).Perm (countingNew old (countNames es₂).2)) →
       ∃ w₁ w₂, whModel .r2b p₁ eta β₁ β₂ lam (some ct) none chunk₁ none es₁ = .ok w₁ ∧
-        whModel .r2b p₂ eta β₁ β₂ lam (some ct) none chunk₂ (some w₁) es₂ = .ok w₂ ∧
+        whModelWith nl .r2b p₂ eta β₁ β₂ lam (some ct) none chunk₂ (some w₁) es₂ = .ok w₂ ∧
         w₁.outcomes = (countNames es₁).2 ∧
-        w₂.outcomes = w₁.outcomes ++ (countNames es₂).2.filter (fun o => !w₁.outcomes.contains o)) := by
+        (∃ blk, w₂.outcomes = w₁.outcomes ++ blk ∧
+          blk.Perm ((countNames es₂).2.filter (fun o => !w₁.outcomes.contains o))) ∧
+        ∀ o d, w₂.get o d = whSpecGet .r2b eta β₁ β₂ lam (some ct) none (es₁' ++ es₂') o d) := by
   constructor
-  · intro h1 h2
-    obtain ⟨w₁, w₂, a, b, c, d, _⟩ := whB2R_chain_two eta β₁ β₂ lam ot p₁ p₂ chunk₁ chunk₂ hc₁ hc₂
+  · intro h1 h2 hnl
+    obtain ⟨w₁, w₂, a, b, c, _, e⟩ := whB2R_chain_two eta β₁ β₂ lam ot p₁ p₂ chunk₁ chunk₂ hc₁ hc₂
       es₁ es₂ es₁' es₂' h1 h2 hp₁ hp₂
-    exact ⟨w₁, w₂, a, b, c, d⟩
-  · intro h1 h2
-    obtain ⟨w₁, w₂, a, b, c, d, _⟩ := whR2B_chain_two eta β₁ β₂ lam ct p₁ p₂ chunk₁ chunk₂ hc₁ hc₂
+    have hlab : w₁.outcomes = ot.dims :=
+      whModel_ok_labels .b2r p₁ eta β₁ β₂ lam none (some ot) chunk₁ none es₁ w₁ a
+    obtain ⟨r, r', g1, g2, _, _, g5, g6⟩ := whModelWith_b2r_get_eq nl p₂ eta β₁ β₂ lam ot chunk₂ hc₂ w₁
+      es₂ es₂' h2 hp₂ hlab (newCovers_of_perm nl _ _ (hnl w₁.cues))
+    have hr : r = w₂ := by rw [b] at g1; exact (Except.ok.inj g1).symm
+    subst hr
+    exact ⟨w₁, r', a, g2, c, ⟨_, g5, hnl w₁.cues⟩, fun dl cc => by rw [g6 dl cc, e dl cc]; rfl⟩
+  · intro h1 h2 hnl
+    obtain ⟨w₁, w₂, a, b, c, _, e⟩ := whR2B_chain_two eta β₁ β₂ lam ct p₁ p₂ chunk₁ chunk₂ hc₁ hc₂
       es₁ es₂ es₁' es₂' h1 h2 hp₁ hp₂
-    exact ⟨w₁, w₂, a, b, c, d⟩
+    have hlab : w₁.cues = ct.dims :=
+      whModel_ok_labels .r2b p₁ eta β₁ β₂ lam (some ct) none chunk₁ none es₁ w₁ a
+    obtain ⟨r, r', g1, g2, _, _, g5, g6⟩ := whModelWith_r2b_get_eq nl p₂ eta β₁ β₂ lam ct chunk₂ hc₂ w₁
+      es₂ es₂' h2 hp₂ (by rw [hlab]) (fun h => h.1 hlab.symm) (newCovers_of_perm nl _ _ (hnl w₁.outcomes))
+    have hr : r = w₂ := by rw [b] at g1; exact (Except.ok.inj g1).symm
+    subst hr
+    exact ⟨w₁, r', a, g2, c, ⟨_, g5, hnl w₁.outcomes⟩, fun o d => by rw [g6 o d, e o d]; rfl⟩
 
 /-- **chains of `wh.wh` calls of ARBITRARY length, all three flavours.**
 
@@ -788,6 +874,135 @@ example :
   wh_chain_any_length .r2r 1 0 0 0 (some exCT) (some exOT) exR2R _ (by decide +kernel) (by decide)
     (by decide +kernel)
 
+/-- `wh_chain_two` APPLIED, every hypothesis instantiated (binary → real, the
+    second part brings the new cues `x`, `y`; different policies and chunk sizes) -/
+example :
+    ∃ w₁ w₂, whModel .b2r .keep (1 : ℤ) 0 0 0 none (some exOT) 1 none [⟨["q"], ["x"]⟩] = .ok w₁ ∧
+      whModel .b2r .dedup (1 : ℤ) 0 0 0 none (some exOT) 2 (some w₁)
+        [⟨["x", "q", "x"], ["y"]⟩, ⟨["y"], ["x"]⟩] = .ok w₂ ∧
+      ∀ a b, w₂.get a b = whSpecGet .b2r (1 : ℤ) 0 0 0 none (some exOT)
+        ([⟨["q"], ["x"]⟩] ++ [⟨["x", "q"], ["y"]⟩, ⟨["y"], ["x"]⟩]) a b :=
+  wh_chain_two .b2r 1 0 0 0 none (some exOT) .keep .dedup 1 2 (by decide) (by decide)
+    [⟨["q"], ["x"]⟩] [⟨["x", "q", "x"], ["y"]⟩, ⟨["y"], ["x"]⟩] _ _
+    (by decide +kernel) (by decide +kernel) (by decide +kernel) (by decide +kernel)
+
+/-- the order `nl` of the second review's probe: the new cues of the second
+    call appended in REVERSE counting order (code `['q','y','x']`, model `[q,x,y]`) -/
+def exRevNew (old ev : List String) : List String := (countingNew old ev).reverse
+
+/-- `wh_chain_two_labels` APPLIED with that order (binary → real half, every
+    hypothesis instantiated): the cue labels are `q` followed by a permutation
+    of `x, y`, and the weights read through the labels are the specification … -/
+example :
+    ∃ w₁ w₂, whModel .b2r .keep (1 : ℤ) 0 0 0 none (some exOT) 1 none [⟨["q"], ["x"]⟩] = .ok w₁ ∧
+      whModelWith exRevNew .b2r .dedup (1 : ℤ) 0 0 0 none (some exOT) 2 (some w₁)
+        [⟨["x", "q", "x"], ["y"]⟩, ⟨["y"], ["x"]⟩] = .ok w₂ ∧
+      w₁.cues = (countNames [⟨["q"], ["x"]⟩]).1 ∧
+      (∃ blk, w₂.cues = w₁.cues ++ blk ∧
+        blk.Perm ((countNames [⟨["x", "q", "x"], ["y"]⟩, ⟨["y"], ["x"]⟩]).1.filter
+          (fun c => !w₁.cues.contains c))) ∧
+      ∀ dl c, w₂.get dl c = whSpecGet .b2r (1 : ℤ) 0 0 0 none (some exOT)
+        ([⟨["q"], ["x"]⟩] ++ [⟨["x", "q"], ["y"]⟩, ⟨["y"], ["x"]⟩]) dl c :=
+  (wh_chain_two_labels exRevNew (1 : ℤ) 0 0 0 exCT exOT .keep .dedup 1 2 (by decide) (by decide)
+    [⟨["q"], ["x"]⟩] [⟨["x", "q", "x"], ["y"]⟩, ⟨["y"], ["x"]⟩] _ _ (by decide +kernel) (by decide +kernel)).1
+    (by decide +kernel) (by decide +kernel) (fun old => List.reverse_perm _)
+
+/-- … and the two runs themselves (kernel-evaluated): the code's order
+    `q, y, x` and the model's `q, x, y` — different arrays, the same weights at
+    the labels (column `x` holds (0, 1) … in both) -/
+example :
+    showCall (whModelWith exRevNew .b2r .dedup (1 : ℤ) 0 0 0 none (some exOT) 2
+      (some ⟨["d0", "d1"], ["q"], #[1, 2]⟩) [⟨["x", "q", "x"], ["y"]⟩, ⟨["y"], ["x"]⟩])
+      = some (["d0", "d1"], ["q", "y", "x"], #[0, 1, -1,  3, 2, 1]) ∧
+    showCall (whModel .b2r .dedup (1 : ℤ) 0 0 0 none (some exOT) 2
+      (some ⟨["d0", "d1"], ["q"], #[1, 2]⟩) [⟨["x", "q", "x"], ["y"]⟩, ⟨["y"], ["x"]⟩])
+      = some (["d0", "d1"], ["q", "x", "y"], #[0, -1, 1,  3, 1, 2]) := by
+  refine ⟨by decide +kernel, by decide +kernel⟩
+
+/-- `wh_appended_label_order_irrelevant` APPLIED (real → binary half): given
+    weights with the outcome `x`, events bringing `z` then `y`, appended as `y, z` -/
+example :
+    ∃ r r', whModel .r2b .keep (0 : ℤ) 1 1 3 (some exCT) none 1 (some ⟨["x"], ["k0", "k1"], #[1, 2]⟩)
+        [⟨["a"], ["z", "x"]⟩, ⟨["b", "b"], ["y"]⟩] = .ok r ∧
+      whModelWith exRevNew .r2b .keep (0 : ℤ) 1 1 3 (some exCT) none 1 (some ⟨["x"], ["k0", "k1"], #[1, 2]⟩)
+        [⟨["a"], ["z", "x"]⟩, ⟨["b", "b"], ["y"]⟩] = .ok r' ∧
+      r'.cues = r.cues ∧
+      r.outcomes = ["x"] ++ countingNew ["x"] (countNames [⟨["a"], ["z", "x"]⟩, ⟨["b", "b"], ["y"]⟩]).2 ∧
+      r'.outcomes = ["x"] ++ exRevNew ["x"] (countNames [⟨["a"], ["z", "x"]⟩, ⟨["b", "b"], ["y"]⟩]).2 ∧
+      ∀ a b, r'.get a b = r.get a b :=
+  (wh_appended_label_order_irrelevant exRevNew .keep (0 : ℤ) 1 1 3 1 (by decide)
+    ⟨["x"], ["k0", "k1"], #[1, 2]⟩ [⟨["a"], ["z", "x"]⟩, ⟨["b", "b"], ["y"]⟩]
+    [⟨["a"], ["z", "x"]⟩, ⟨["b", "b"], ["y"]⟩] (by decide +kernel)).2
+    exCT (by decide +kernel) (by decide) (by decide +kernel) (List.reverse_perm _)
+
+example : exRevNew ["x"] (countNames [⟨["a"], ["z", "x"]⟩, ⟨["b", "b"], ["y"]⟩]).2 = ["y", "z"] ∧
+    countingNew ["x"] (countNames [⟨["a"], ["z", "x"]⟩, ⟨["b", "b"], ["y"]⟩]).2 = ["z", "y"] := by
+  refine ⟨by decide +kernel, by decide +kernel⟩
+
+/-- `wh_r2b_continue_get`, `wh_b2r_continue_get`, `wh_r2r_continue_get` APPLIED
+    with every hypothesis instantiated (the weights and events of the examples
+    for the non-`_get` forms; real → binary on weights labelled `z0, z1`) -/
+example :
+    ∃ r, whModel .r2b .keep (0 : ℤ) 1 1 3 (some exCT) none 2 (some ⟨["x"], ["z0", "z1"], #[1, 2]⟩)
+        [⟨["a", "b"], ["x"]⟩, ⟨["c", "c"], ["y"]⟩] = .ok r ∧
+      ∀ o d, r.get o d = if d ∈ exCT.dims
+        then whR2BSpecFrom 1 1 3 exCT (⟨["x"], ["z0", "z1"], #[1, 2]⟩ : LW ℤ).byOutcome
+          [⟨["a", "b"], ["x"]⟩, ⟨["c", "c"], ["y"]⟩] o (exCT.dims.idxOf d) else 0 :=
+  wh_r2b_continue_get .keep 0 1 1 3 exCT (by decide) 2 (by decide) ⟨["x"], ["z0", "z1"], #[1, 2]⟩ (by decide)
+    _ _ (by decide +kernel) (by decide +kernel) (by decide) (by decide +kernel)
+
+example :
+    ∃ r, whModel .b2r .dedup (1 : ℤ) 0 0 0 none (some exOT) 2 (some ⟨["d0", "d1"], ["q"], #[1, 2]⟩)
+        [⟨["x", "q", "x"], ["y"]⟩, ⟨["y"], ["x"]⟩] = .ok r ∧
+      ∀ dl c, r.get dl c = if dl ∈ exOT.dims
+        then whB2RSpecFrom 1 exOT (⟨["d0", "d1"], ["q"], #[1, 2]⟩ : LW ℤ).byCue
+          [⟨["x", "q"], ["y"]⟩, ⟨["y"], ["x"]⟩] (exOT.dims.idxOf dl) c else 0 :=
+  wh_b2r_continue_get .dedup 1 0 0 0 exOT (by decide) 2 (by decide) ⟨["d0", "d1"], ["q"], #[1, 2]⟩ (by decide)
+    _ _ (by decide +kernel) (by decide +kernel) (by decide)
+
+example :
+    ∃ r, whModel .r2r .dedup (1 : ℤ) 0 0 0 (some exCT) (some exOT) 1
+        (some ⟨["d1", "d0"], ["k1", "k0"], #[1, 2, 3, 4]⟩) [⟨["a", "b", "a"], ["x"]⟩] = .ok r ∧
+      ∀ dlo dlc, r.get dlo dlc = if dlo ∈ exOT.dims ∧ dlc ∈ exCT.dims
+        then whR2RSpecFrom 1 exCT exOT
+          ((⟨["d1", "d0"], ["k1", "k0"], #[1, 2, 3, 4]⟩ : LW ℤ).atLabels exOT.dims exCT.dims)
+          [⟨["a", "b"], ["x"]⟩] (exOT.dims.idxOf dlo) (exCT.dims.idxOf dlc) else 0 :=
+  wh_r2r_continue_get .dedup 1 0 0 0 exCT exOT (by decide) (by decide) 1 (by decide) _ _ _
+    (by decide +kernel) (by decide +kernel) (by decide +kernel) (by decide) (by decide) (by decide) (by decide)
+
+/-- `wh_b2r_chain_from`, `wh_r2b_chain_from`, `wh_r2r_chain_from` APPLIED: the
+    last two parts of the three example chains, started from GIVEN weights with
+    the tables' labels (every hypothesis instantiated) -/
+example :
+    ∃ s', whChainRun .b2r (1 : ℤ) 0 0 0 none (some exOT) (some ⟨["d0", "d1"], ["a", "b"], #[1, 1, 2, 2]⟩)
+        (exB2R.drop 1) = .ok s' ∧
+      (∀ w, s' = some w → w.outcomes = exOT.dims) ∧
+      ∀ d, d < exOT.dims.length → optByCue s' d
+        = whB2RSpecFrom 1 exOT (optByCue (some ⟨["d0", "d1"], ["a", "b"], #[1, 1, 2, 2]⟩))
+            (whAllEvents (exB2R.drop 1)) d :=
+  wh_b2r_chain_from 1 0 0 0 exOT (exB2R.drop 1) (some ⟨["d0", "d1"], ["a", "b"], #[1, 1, 2, 2]⟩)
+    (fun w hw => by cases hw; rfl) _ (by decide +kernel) (by decide) (by decide +kernel)
+
+example :
+    ∃ s', whChainRun .r2b (0 : ℤ) 1 1 3 (some exCT) none (some ⟨["x"], ["k0", "k1"], #[1, 2]⟩)
+        (exR2B.drop 1) = .ok s' ∧
+      (∀ w, s' = some w → w.cues = exCT.dims) ∧
+      optByOutcome s' = whR2BSpecFrom 1 1 3 exCT (optByOutcome (some ⟨["x"], ["k0", "k1"], #[1, 2]⟩))
+        [⟨["c", "a"], ["x", "y"]⟩, ⟨["b"], ["z"]⟩, ⟨["b", "b"], ["y"]⟩] :=
+  wh_r2b_chain_from 0 1 1 3 exCT (exR2B.drop 1) (some ⟨["x"], ["k0", "k1"], #[1, 2]⟩)
+    (fun w hw => by cases hw; rfl) _ (by decide +kernel) (by decide) (by decide +kernel)
+
+example :
+    ∃ s', whChainRun .r2r (1 : ℤ) 0 0 0 (some exCT) (some exOT)
+        (some ⟨["d0", "d1"], ["k0", "k1"], #[1, 2, 3, 4]⟩) (exR2R.drop 1) = .ok s' ∧
+      (∀ w, s' = some w → w.outcomes = exOT.dims ∧ w.cues = exCT.dims) ∧
+      ∀ d, d < exOT.dims.length → optByPos s' d
+        = whR2RSpecFrom 1 exCT exOT (optByPos (some ⟨["d0", "d1"], ["k0", "k1"], #[1, 2, 3, 4]⟩))
+            [⟨["c", "a"], ["x", "y"]⟩, ⟨["b", "b"], ["y", "y"]⟩] d :=
+  wh_r2r_chain_from 1 0 0 0 exCT exOT (by decide) (by decide) (exR2R.drop 1)
+    (some ⟨["d0", "d1"], ["k0", "k1"], #[1, 2, 3, 4]⟩) (fun w hw => by cases hw; exact ⟨rfl, rfl⟩) _
+    (by decide +kernel) (by decide) (by decide +kernel) (by decide +kernel)
+
 /-! ### non-vacuity of the label-check theorems: the inputs the review used -/
 
 def showErr : Except Err (LW ℤ) → Option Err
@@ -896,7 +1111,11 @@ example :
 
 /-! ## numpy and pure Python: `wh.wh(method='numpy')` and `dict_wh` -/
 
-/-- **what both loops do with one event before learning from it**, in the order
+/-- (definitional: a case analysis that restates the `match` of
+    `singleEvent`; not a property theorem — it says what the MODEL of the two
+    loops checks, and the model's order of checks is tied to the code by the
+    differential streams `py_errors` / `numpy_given_weights`)
+    what both loops do with one event before learning from it, in the order
     of the code: `ValueError` when the duplicate policy rejects it; then
     `AssertionError` when it does not have exactly one outcome; then
     `AssertionError` when it does not have exactly one cue; otherwise the single
@@ -948,7 +1167,11 @@ theorem dict_wh_continue (p : DupPolicy) (eta : R) (ct ot : VecTable R)
         else wdAbs W0 dlo dlc :=
   dictWhModel_continue_get p eta ct ot hnc hno W0 es es' htabc htabo hp hs
 
-/-- **two `dict_wh` calls = one** (no hypothesis at all): the second call,
+/-- (definitional: `dictWhModel` IS a left fold over the events
+    (`dictWhLoop`), so this is the append law of a fold, `dictWhLoop_append`;
+    not a property theorem.  That the real `dict_wh` continues from the given
+    `WeightDict` exactly like the fold is decided by the differential run.)
+    two `dict_wh` calls = one (no hypothesis at all): the second call,
     given the first one's `WeightDict`, returns — or raises — exactly what one
     call over the concatenated events does. -/
 theorem dict_wh_two_calls (p : DupPolicy) (eta : R) (ct ot : VecTable R)
@@ -1230,5 +1453,59 @@ example :
     (by decide +kernel) (by decide +kernel) (by decide +kernel) (by decide +kernel),
    by decide +kernel,
    dict_wh_two_calls .dedup 1 exCT exOT [] _ (exSingles.take 1) (exSingles.drop 1) (by decide +kernel)⟩
+
+/-- `wh_numpy_two_calls` APPLIED, every hypothesis instantiated: `exSingles`
+    split 1 + 2, first call `remove_duplicates=False`, second `True` -/
+example :
+    ∃ r₁ r₂, whNumpyModel .keep (1 : ℤ) exCT exOT none (exSingles.take 1) = .ok r₁ ∧
+      whNumpyModel .dedup (1 : ℤ) exCT exOT (some r₁) (exSingles.drop 1) = .ok r₂ ∧
+      r₂.outcomes = exOT.dims ∧ r₂.cues = exCT.dims ∧
+      ∀ d, d < exOT.dims.length →
+        r₂.byPos d = whR2RSpec 1 exCT exOT (exSingles'.take 1 ++ exSingles'.drop 1) d :=
+  wh_numpy_two_calls .keep .dedup 1 exCT exOT (by decide) (by decide) (by decide) (by decide)
+    (exSingles.take 1) (exSingles'.take 1) (exSingles.drop 1) (exSingles'.drop 1)
+    (by decide +kernel) (by decide +kernel) (by decide +kernel) (by decide +kernel)
+    (by decide +kernel) (by decide +kernel)
+
+/-- `wh_numpy_event_error` APPLIED: one accepted event, then an event with two
+    cues (`AssertionError`), then anything -/
+example : whNumpyModel .keep (1 : ℤ) exCT exOT none ([⟨["a"], ["x"]⟩] ++ ⟨["a", "b"], ["x"]⟩ :: [⟨["c"], ["y"]⟩])
+    = .error .assertion :=
+  wh_numpy_event_error .keep 1 exCT exOT [⟨["a"], ["x"]⟩] ⟨["a", "b"], ["x"]⟩ [⟨["c"], ["y"]⟩]
+    [⟨["a"], ["x"]⟩] .assertion (by decide +kernel) (by decide +kernel) (by decide +kernel)
+    (by decide +kernel) (by decide +kernel)
+
+/-- `wh_numpy_table_check` APPLIED: the unknown cue `q` of the SECOND event wins
+    over the assertion the first event would fail -/
+example : whNumpyModel .keep (1 : ℤ) exCT exOT none [⟨["a", "b"], ["x"]⟩, ⟨["q"], ["x"]⟩] = .error (.std .value) :=
+  wh_numpy_table_check .keep 1 exCT exOT none _ (Or.inl ⟨⟨["q"], ["x"]⟩, by simp, "q", by simp, by decide⟩)
+
+/-- `dict_wh_raises` APPLIED (all three clauses): after the accepted event
+    `a → x`, a repeated cue under `None` (`ValueError`), an unknown cue and an
+    unknown outcome (`KeyError`) -/
+example :
+    dictWhModel .error (1 : ℤ) exCT exOT [] ([⟨["a"], ["x"]⟩] ++ ⟨["b", "b"], ["x"]⟩ :: [⟨["c"], ["y"]⟩])
+      = .error (.std .value) ∧
+    dictWhModel .error (1 : ℤ) exCT exOT [] ([⟨["a"], ["x"]⟩] ++ ⟨["q"], ["q2"]⟩ :: []) = .error (.std .key) ∧
+    dictWhModel .error (1 : ℤ) exCT exOT [] ([⟨["a"], ["x"]⟩] ++ ⟨["b"], ["q2"]⟩ :: []) = .error (.std .key) :=
+  ⟨(dict_wh_raises .error 1 exCT exOT [] [⟨["a"], ["x"]⟩] ⟨["b", "b"], ["x"]⟩ [⟨["c"], ["y"]⟩]
+      [("d0", [("k0", 1), ("k1", 0)]), ("d1", [("k0", 2), ("k1", 0)])] (by decide +kernel)).1 _ (by decide +kernel),
+   (dict_wh_raises .error 1 exCT exOT [] [⟨["a"], ["x"]⟩] ⟨["q"], ["q2"]⟩ []
+      [("d0", [("k0", 1), ("k1", 0)]), ("d1", [("k0", 2), ("k1", 0)])] (by decide +kernel)).2.1 "q" "q2"
+      (by decide +kernel) (by decide +kernel),
+   (dict_wh_raises .error 1 exCT exOT [] [⟨["a"], ["x"]⟩] ⟨["b"], ["q2"]⟩ []
+      [("d0", [("k0", 1), ("k1", 0)]), ("d1", [("k0", 2), ("k1", 0)])] (by decide +kernel)).2.2 "b" "q2"
+      (by decide +kernel) (by decide +kernel)⟩
+
+/-- `wh_numpy_eq_openmp_continue` APPLIED: given weights with labels permuted on
+    both axes, the three example events, `remove_duplicates=True` -/
+example :
+    ∃ r, whNumpyModel .dedup (1 : ℤ) exCT exOT (some ⟨["d1", "d0"], ["k1", "k0"], #[1, 2, 3, 4]⟩) exSingles = .ok r ∧
+      whModel .r2r .dedup (1 : ℤ) 0 0 0 (some exCT) (some exOT) 1
+        (some ⟨["d1", "d0"], ["k1", "k0"], #[1, 2, 3, 4]⟩) exSingles = .ok r :=
+  wh_numpy_eq_openmp_continue .dedup 1 0 0 0 exCT exOT (by decide) (by decide) 1 (by decide)
+    ⟨["d1", "d0"], ["k1", "k0"], #[1, 2, 3, 4]⟩ exSingles exSingles'
+    (by decide +kernel) (by decide +kernel) (by decide +kernel) (by decide +kernel)
+    (by decide) (by decide) (by decide) (by decide)
 
 end Pyndl.C08
